@@ -179,103 +179,7 @@ func runC02(c *eng.Ctx) {
 	})
 
 	// ---- 6/7/8. the keep-set ------------------------------------------------------------------------------------------
-	c.Rule("UNION", famT+".deleteObsoleteFiles{keep-set}", func() {
-		f := c.Fn(famT + ".deleteObsoleteFiles")
-		pend := c.One(f, invokeOnGeneric(".pendingOutputs", "Range"), "pendingOutputs.Range")
-		act := c.One(f, invokeOn(".familyVersion", "GetAllActiveFiles"), "familyVersion.GetAllActiveFiles()")
-		rol := c.One(f, invokeOn(".familyVersion", "GetLiveRollupFiles"), "familyVersion.GetLiveRollupFiles()")
-		dels := c.Some(f, eng.AnyCallTo("var:kv.removeDirFunc"), "removal of a table file (removeDirFunc)")
-		evs := c.Some(f, invokeOn(".store", "evictFamilyFile"), "store.evictFamilyFile")
-		for _, src := range []eng.Site{pend, act, rol} {
-			for i, d := range append(append([]eng.Site{}, dels...), evs...) {
-				c.Check(eng.DominatedBy(f, d.Instr, []eng.Site{src}, nil), fmt.Sprintf("source<%s[%d]:%s", "delete", i, shortInstr(p, src.Instr)), d.Instr, f,
-					"nothing is evicted or deleted before the keep-set received "+shortInstr(p, src.Instr), "")
-			}
-		}
-		c.Check(eng.DominatedBy(f, act.Instr, []eng.Site{pend}, nil), "pending-read-before-active", act.Instr, f,
-			"pending outputs are collected BEFORE the active versions' files: a flush moves its file from pending to a version (commit, then un-mark), so reading in the other order can miss a file that is in neither set at read time",
-			"GetAllActiveFiles is read before the pending outputs")
-		// the pending range closure puts keys into the same map the deletion loop consults
-		facts := p.MustFacts(f)
-		for i, d := range dels {
-			// the removal is guarded by "not in the keep-set": a guard derived from the comma-ok lookup, taken on its false side
-			conds, taken := eng.GuardingConds(f, d.Instr)
-			okGuard := false
-			detail := ""
-			for k, cd := range conds {
-				v := cd
-				neg := false
-				for {
-					if u, ok := v.(*ssa.UnOp); ok && u.Op == token.NOT {
-						neg = !neg
-						v = u.X
-						continue
-					}
-					break
-				}
-				fromLookup := eng.DependsOn(v, func(x ssa.Value) bool {
-					e, ok := x.(*ssa.Extract)
-					if !ok || e.Index != 1 {
-						return false
-					}
-					_, isLookup := e.Tuple.(*ssa.Lookup)
-					return isLookup
-				})
-				if !fromLookup {
-					continue
-				}
-				present := taken[k] != neg // the guard holds with ok/keep == present
-				detail += fmt.Sprintf("guard %s taken=%v; ", p.Desc(cd), taken[k])
-				if !present {
-					okGuard = true
-				}
-			}
-			c.Check(okGuard, fmt.Sprintf("delete-only-if-absent[%d]", i), d.Instr, f, "a table is deleted only when its number is absent from the keep-set", detail)
-			c.Check(eng.DominatedBy(f, d.Instr, evs, nil), fmt.Sprintf("evict<delete[%d]", i), d.Instr, f, "the cached reader is evicted (unmapped) before the file is removed", "")
-			a := eng.CallArgs(d.Instr.(*ssa.Call))[0]
-			ea := eng.CallArgs(evs[0].Instr.(*ssa.Call))[0]
-			c.Check(eng.DependsOn(a, func(x ssa.Value) bool { return x == ea || eng.SameValue(x, ea) }), fmt.Sprintf("same-file[%d]", i), d.Instr, f, "the evicted and the deleted file are the same number", "removes "+p.Desc(a)+", evicts "+p.Desc(ea))
-		}
-		// only table files are subject to deletion: the lookup that can clear `keep` is under FileType == TypeTable
-		var look ssa.Instruction
-		for _, b := range eng.BlocksT(f) {
-			for _, in := range b.Instrs {
-				if l, ok := in.(*ssa.Lookup); ok && l.CommaOk {
-					look = in
-				}
-			}
-		}
-		if look == nil {
-			c.Undecided("keep-set lookup not found")
-		}
-		tt := facts.Find(facts.At(look), "eq", eng.DescSuffix(".FileType"), func(d string, _ ssa.Value) bool { return true })
-		c.Check(len(tt) > 0, "only-table-files", look, f, "only files of type table can lose their keep status", "")
-		// the three sources feed the map that is looked up
-		lm := look.(*ssa.Lookup).X
-		nFeed := 0
-		for _, b := range eng.BlocksT(f) {
-			for _, in := range b.Instrs {
-				if mu, ok := in.(*ssa.MapUpdate); ok {
-					nFeed++
-					same := eng.SameValue(mu.Map, lm) || mu.Map == lm || eng.DependsOn(lm, func(x ssa.Value) bool { return x == mu.Map || eng.SameValue(x, mu.Map) }) || eng.DependsOn(mu.Map, func(x ssa.Value) bool { return x == lm || eng.SameValue(x, lm) })
-					c.Check(same, fmt.Sprintf("feeds-keep-set[%d]", nFeed), in, f, "every collected number goes into the map the deletion consults", "updates "+p.Desc(mu.Map)+", consults "+p.Desc(lm))
-				}
-			}
-		}
-		ga := c.Fn(fvT + ".GetAllActiveFiles")
-		rg := false
-		for _, b := range eng.BlocksT(ga) {
-			for _, in := range b.Instrs {
-				if r, ok := in.(*ssa.Range); ok && eng.DependsOnField(r.X, fvT+".activeVersions") {
-					rg = true
-				}
-			}
-		}
-		c.Check(rg, "all-active-versions", nil, ga, "GetAllActiveFiles ranges over every active version (not only the current one), so files of versions pinned by open snapshots are kept", "no range over fv.activeVersions")
-		c.Check(len(p.Sites(ga, eng.LoadField(fvT+".current"))) == 0 || rg, "not-only-current", nil, ga, "the active-file set is not computed from fv.current alone", "")
-		owner(c, "call of family.deleteObsoleteFiles", eng.AnyCallTo(famT+".deleteObsoleteFiles", "kv.Family.deleteObsoleteFiles"),
-			[]string{famT + ".backgroundCompactionJob", famT + ".rollup", "kv.store.deleteFamilyObsoleteFiles"}, 3)
-	})
+	c.Rule("UNION", famT+".deleteObsoleteFiles{keep-set}", func() { obsoleteKeepSet(c) })
 
 	// ---- 9/10/11. reader cache -----------------------------------------------------------------------------------------
 	c.Rule("ORDER", "kv{pending-output claim is dropped only after the commit that references the file}", func() {
@@ -303,6 +207,8 @@ func runC02(c *eng.Ctx) {
 		rel := c.One(cl, invokeOn(".cache", "ReleaseReaders"), "s.cache.ReleaseReaders(s.readers)")
 		c.Check(eng.DependsOnField(eng.CallArgs(rel.Instr.(*ssa.Call))[0], "kv/version.snapshot.readers"), "releases-the-recorded-readers", rel.Instr, cl, "Close releases exactly the readers recorded in s.readers", "")
 	})
+
+	c.Rule("ATOMIC", "kv/version.storeVersionSet.CommitFamilyEditLog", func() { commitFamilyEditLogAtomic(c) })
 
 	c.Rule("OWNER", scT+"{evict, close, cleanup}", func() {
 		owner(c, "call of Cache.Evict", eng.AnyCallTo("kv/table.Cache.Evict", scT+".Evict"), []string{"kv.store.evictFamilyFile"}, 1)
@@ -487,4 +393,104 @@ func commitBaseInHold(c *eng.Ctx) {
 		}
 	}
 	c.Check(n >= 3, "base-chain-found", ins.Instr, f, "the installed version derives from GetSnapshot().GetCurrent().Clone()", fmt.Sprintf("%d links found for %s", n, p.Desc(nv)))
+}
+
+func obsoleteKeepSet(c *eng.Ctx) {
+	p := c.P
+	_ = p
+	f := c.Fn(famT + ".deleteObsoleteFiles")
+	pend := c.One(f, invokeOnGeneric(".pendingOutputs", "Range"), "pendingOutputs.Range")
+	act := c.One(f, invokeOn(".familyVersion", "GetAllActiveFiles"), "familyVersion.GetAllActiveFiles()")
+	rol := c.One(f, invokeOn(".familyVersion", "GetLiveRollupFiles"), "familyVersion.GetLiveRollupFiles()")
+	dels := c.Some(f, eng.AnyCallTo("var:kv.removeDirFunc"), "removal of a table file (removeDirFunc)")
+	evs := c.Some(f, invokeOn(".store", "evictFamilyFile"), "store.evictFamilyFile")
+	for _, src := range []eng.Site{pend, act, rol} {
+		for i, d := range append(append([]eng.Site{}, dels...), evs...) {
+			c.Check(eng.DominatedBy(f, d.Instr, []eng.Site{src}, nil), fmt.Sprintf("source<%s[%d]:%s", "delete", i, shortInstr(p, src.Instr)), d.Instr, f,
+				"nothing is evicted or deleted before the keep-set received "+shortInstr(p, src.Instr), "")
+		}
+	}
+	c.Check(eng.DominatedBy(f, act.Instr, []eng.Site{pend}, nil), "pending-read-before-active", act.Instr, f,
+		"pending outputs are collected BEFORE the active versions' files: a flush moves its file from pending to a version (commit, then un-mark), so reading in the other order can miss a file that is in neither set at read time",
+		"GetAllActiveFiles is read before the pending outputs")
+	// the pending range closure puts keys into the same map the deletion loop consults
+	facts := p.MustFacts(f)
+	for i, d := range dels {
+		// the removal is guarded by "not in the keep-set": a guard derived from the comma-ok lookup, taken on its false side
+		conds, taken := eng.GuardingConds(f, d.Instr)
+		okGuard := false
+		detail := ""
+		for k, cd := range conds {
+			v := cd
+			neg := false
+			for {
+				if u, ok := v.(*ssa.UnOp); ok && u.Op == token.NOT {
+					neg = !neg
+					v = u.X
+					continue
+				}
+				break
+			}
+			fromLookup := eng.DependsOn(v, func(x ssa.Value) bool {
+				e, ok := x.(*ssa.Extract)
+				if !ok || e.Index != 1 {
+					return false
+				}
+				_, isLookup := e.Tuple.(*ssa.Lookup)
+				return isLookup
+			})
+			if !fromLookup {
+				continue
+			}
+			present := taken[k] != neg // the guard holds with ok/keep == present
+			detail += fmt.Sprintf("guard %s taken=%v; ", p.Desc(cd), taken[k])
+			if !present {
+				okGuard = true
+			}
+		}
+		c.Check(okGuard, fmt.Sprintf("delete-only-if-absent[%d]", i), d.Instr, f, "a table is deleted only when its number is absent from the keep-set", detail)
+		c.Check(eng.DominatedBy(f, d.Instr, evs, nil), fmt.Sprintf("evict<delete[%d]", i), d.Instr, f, "the cached reader is evicted (unmapped) before the file is removed", "")
+		a := eng.CallArgs(d.Instr.(*ssa.Call))[0]
+		ea := eng.CallArgs(evs[0].Instr.(*ssa.Call))[0]
+		c.Check(eng.DependsOn(a, func(x ssa.Value) bool { return x == ea || eng.SameValue(x, ea) }), fmt.Sprintf("same-file[%d]", i), d.Instr, f, "the evicted and the deleted file are the same number", "removes "+p.Desc(a)+", evicts "+p.Desc(ea))
+	}
+	// only table files are subject to deletion: the lookup that can clear `keep` is under FileType == TypeTable
+	var look ssa.Instruction
+	for _, b := range eng.BlocksT(f) {
+		for _, in := range b.Instrs {
+			if l, ok := in.(*ssa.Lookup); ok && l.CommaOk {
+				look = in
+			}
+		}
+	}
+	if look == nil {
+		c.Undecided("keep-set lookup not found")
+	}
+	tt := facts.Find(facts.At(look), "eq", eng.DescSuffix(".FileType"), func(d string, _ ssa.Value) bool { return true })
+	c.Check(len(tt) > 0, "only-table-files", look, f, "only files of type table can lose their keep status", "")
+	// the three sources feed the map that is looked up
+	lm := look.(*ssa.Lookup).X
+	nFeed := 0
+	for _, b := range eng.BlocksT(f) {
+		for _, in := range b.Instrs {
+			if mu, ok := in.(*ssa.MapUpdate); ok {
+				nFeed++
+				same := eng.SameValue(mu.Map, lm) || mu.Map == lm || eng.DependsOn(lm, func(x ssa.Value) bool { return x == mu.Map || eng.SameValue(x, mu.Map) }) || eng.DependsOn(mu.Map, func(x ssa.Value) bool { return x == lm || eng.SameValue(x, lm) })
+				c.Check(same, fmt.Sprintf("feeds-keep-set[%d]", nFeed), in, f, "every collected number goes into the map the deletion consults", "updates "+p.Desc(mu.Map)+", consults "+p.Desc(lm))
+			}
+		}
+	}
+	ga := c.Fn(fvT + ".GetAllActiveFiles")
+	rg := false
+	for _, b := range eng.BlocksT(ga) {
+		for _, in := range b.Instrs {
+			if r, ok := in.(*ssa.Range); ok && eng.DependsOnField(r.X, fvT+".activeVersions") {
+				rg = true
+			}
+		}
+	}
+	c.Check(rg, "all-active-versions", nil, ga, "GetAllActiveFiles ranges over every active version (not only the current one), so files of versions pinned by open snapshots are kept", "no range over fv.activeVersions")
+	c.Check(len(p.Sites(ga, eng.LoadField(fvT+".current"))) == 0 || rg, "not-only-current", nil, ga, "the active-file set is not computed from fv.current alone", "")
+	owner(c, "call of family.deleteObsoleteFiles", eng.AnyCallTo(famT+".deleteObsoleteFiles", "kv.Family.deleteObsoleteFiles"),
+		[]string{famT + ".backgroundCompactionJob", famT + ".rollup", "kv.store.deleteFamilyObsoleteFiles"}, 3)
 }
